@@ -5,13 +5,17 @@ from props import xmlcommon as X
 
 PROP = "C17"
 ENGINE = "xmlser"
-LEAN_TARGETS = ["H5V.Props.C17"]
-AUDIT_IMPORTS = ["H5V.Props.C17"]
+LEAN_TARGETS = ["H5V.Props.C17", "H5V.Props.C17RT"]
+AUDIT_IMPORTS = ["H5V.Props.C17RT"]
 THEOREMS = ["H5V.Props.C17." + t for t in [
     "C17_unescape_escape", "C17_escape_delimiters", "C17_text_roundtrip_partial", "C17_attr_roundtrip_partial",
     "C17_witness_cr", "C17_roundtrip_partial", "C17_witness_attr_prefix", "C17_witness_default_undeclared",
     "C17_witness_sibling_leak", "C17_witness_item14", "C17_witness_uri_unescaped", "C17_fixed_examples",
-    "C17_okEvs_fixed", "C17_roundtrip_fixed"]]
+    "C17_okEvs_fixed", "C17_roundtrip_fixed",
+    # with the XML tokenizer model in the loop (Props/C17RT.lean): no abstract lexer left; hypothesis nodesLex + witnesses
+    "C17_tok_events", "C17_roundtrip_tok", "C17_roundtrip_tok_one_piece", "checkParse_sound", "checkRT_sound",
+    "C17_witness_lexical", "C17_witness_attr_leading_colon", "C17_witness_prefix_eq", "C17_witness_pi_blank",
+    "C17_side_finding_stale_attr_value", "C17_chars_split_main", "render_starts_lt"]]
 TRUSTED = [
     "Lean 4 kernel; axioms ⊆ {propext, Classical.choice, Quot.sound} (audited per run)",
     "hand-written model lean/H5V/Model/XmlSer.lean of xml5ever/src/serialize/mod.rs + rcdom's Serialize impl, tied "
@@ -269,8 +273,25 @@ def gen_random(cases, rng, n):
         doc_cases(doc, "random", cases)
 
 
+# names the error-tolerant XML5 tokenizer accepts but no serialization can spell (known findings C17-lex-*): an
+# attribute name that starts with ':' (only reachable after a value-less attribute), a name containing '=', processing-
+# instruction data that starts with a blank (reachable through a '?' not followed by '>'); plus controls that round-trip
+LEX_SRC = ["<r a :b='1'/>", "<r a  :b/>", "<r x='1' a :b='2' :c='3'/>", "<=a:b/>", "<r><=p:x y='1'/></r>", "<a=b:c/>",
+           "<?t? x?><r/>", "<r><?t? x?></r>", "<?t?  y z?><r/>",
+           # controls (round-trip today)
+           "<r a b:='2' :c/>", "<a:/>", "<r a:='1'/>", "<?t?x?><r/>", "<?t ?x?><r/>", "<r x =y/>", "<r><a/ b='1'/></r>",
+           "<r><t/x><s a='1'/></r>", "<r :a='1'/>", "<r a='1':b='2'/>"]
+
+
+def gen_lex_src(cases):
+    for t in LEX_SRC:
+        cases.append(("xmlser\tsrc\t%s" % X.hx(t), "lex-src"))
+        cases.append(("xmlser\tsrc\t%s" % "|".join(X.hx(c) for c in t), "lex-src"))
+
+
 def gen_cases(tier, rng):
     cases = []
+    gen_lex_src(cases)
     gen_cover_misc(cases)
     gen_cover_uri(cases)
     gen_cover_text(cases)
@@ -325,7 +346,27 @@ def all_text(nodes):
             yield n[1], False
 
 
+FAM_LEX_COLON = "[lex-colon] an attribute whose name starts with ':' (tag-attribute-name-after state accepts it, tag-attribute-name-before drops the colon on re-parse) — "
+FAM_LEX_EQ = "[lex-eq] a name containing '=' cannot be written as an attribute / declaration name — "
+FAM_LEX_PI = "[lex-pi] processing-instruction data starting with white space is read back without it — "
+
+
 def family(tree):
+    for e, anc in walk(tree):
+        names = [(e.prefix, e.ns, e.local)] + [an for an, _ in e.attrs]
+        if any("=" in (p or "") or "=" in l for p, ns, l in names):
+            return FAM_LEX_EQ
+        if any(an[2].startswith(":") for an, _ in e.attrs):
+            return FAM_LEX_COLON
+
+    def pis(nodes):
+        for n in nodes:
+            if isinstance(n, X.Elem):
+                yield from pis(n.kids)
+            elif n[0] == "p":
+                yield n
+    if any(n[2][:1] in (" ", "\t", "\n") for n in pis(tree)):
+        return FAM_LEX_PI
     if any("\r" in s for s, isattr in all_text(tree)):
         return FAM_CR
     for e, anc in walk(tree):
@@ -443,4 +484,7 @@ KNOWN_MATCHERS = {
     "F15d-sibling-leak": _detail_starts("[item 15d]"),
     "F15e-uri-escape": _detail_starts("[item 15e]"),
     "F14-reparse": _detail_starts("[item 14]"),
+    "C17-lex-colon": _detail_starts("[lex-colon]"),
+    "C17-lex-eq": _detail_starts("[lex-eq]"),
+    "C17-lex-pi": _detail_starts("[lex-pi]"),
 }
